@@ -18,13 +18,13 @@ HIGHLIGHTS = {
     'C05': "`conversion_fault_raises` (every completion order), `worker_fault_raises`, `dict_fault_raises`, and at learner level `ndl_dup_raises`, `ndl_overflow_raises`, `ndl_empty_raises`, `wh_dup_raises_*`, `wh_missing_vector_raises_*`, with the failing-job oracle instantiated from the file (`failingJob_iff`, `jobResult_eq_writeEvents`, `conversion_dup_raises`).",
     'C06': "`magic_agree` / `version_agree` on regenerated constants, `decode_encode`, `kernel_reads_what_py_reads` / `kernel_rejects_what_py_rejects` (restated: truncation is outside), `written_chunks_are_complete`, `write_read_window` / `write_window_overflow`, `kernel_buffer_never_overrun`, `flatIndex_exact`, `bad_header_rejected(_b2b)`, `good_chunks_consumed`, `empty_file_list_raises`.",
     'C07': "`splitOn_joinWith`, `parse_render(_slice_with)` (for every integer-literal parser, `1 ≤ step`; `step_zero_raises`), `freq_expand_with` / `freq_error_with`, `renderFileWith_*` (columns=, delimiter=, legacy header), `forms_agree`, `literals_match_source`.",
-    'C08': "kernels = delta rule on their own row, `wh_schedule_independent`, **`wh_{r2b,r2r,b2r}_end_to_end`** (`whModel` on names), `wh_*_continue`, `wh_continue_label_check_{b2r,r2b,r2r}` (what each flavour does with the labels of given weights — replaces a statement that was false for two flavours), **`wh_chain_any_length`**, `wh_chain_eq_single_call`, `wh_result_carries_table_labels`.",
+    'C08': "kernels = delta rule on their own row, `wh_schedule_independent`, **`wh_{r2b,r2r,b2r}_end_to_end`** (`whModel` on names), `wh_*_continue`, `wh_continue_label_check_{b2r,r2b,r2r}` (what each flavour does with the labels of given weights — replaces a statement that was false for two flavours), **`wh_chain_any_length`**, `wh_chain_eq_single_call`, `wh_result_carries_table_labels`; the other two implementations (own models `whNumpyModel`, `dictWhModel`): **`wh_implementations_alike`**, `wh_numpy_eq_openmp` (the same matrix), `dict_wh_eq_openmp` (at every pair of keys), `wh_numpy_continue` / `dict_wh_continue`, `*_two_calls`, `single_event_checks` + `dict_wh_raises` / `wh_numpy_table_check` (which exception).",
     'C09': "`windows_spec`, `word_to_word_spec`, `ngrams_spec`, `stream_eq_contexts`, `no_cross_context`, `split_spec` (the context splitter is complete: a splitter that misses a marker fails it), `tokens_clean`, `tokens_allowed`, `tokens_lowered`, `remove_duplicates_spec`, `callable_vs_regex`, `line_event_spec`, **`create_frame`** (early failures leave nothing, late ones a prefix: `late_failure_prefix`, `late_failure_blocks_retry`), `no_overwrite`.",
     'C10': "`imap_eq_map`, `chunk_independent`, `filter_order`, `drop_iff_no_cue`, **`keep_eq_remove_compl`** (restated relative to the tokens that occur; the earlier hypothesis was unsatisfiable: `no_global_complement`), idempotence, `constructor_table`, `malformed_raises`, `chunk_zero_raises`.",
     'C11': "`stride_perm`, `strided_sum`, `cues_outcomes_exact(_with)` for every integer-literal parser, `n_jobs_irrelevant`, `zero_jobs_raises`, `word_counts_exact`, `counters_distinct_positive`.",
-    'C12': "**`activation_matrix_spec`** (about `activationMatrix` itself), `accepted_iff` / `activation_raises` (which event raises what), `act_dict_eq_sum`, `paths_agree`, `events_independent`, `dict_step_delta` / `ndl_step_delta` (one more learning step vs the modelled activation).",
+    'C12': "**`activation_matrix_spec`** (about `activationMatrix` itself), `accepted_iff` / `activation_raises` (which event raises what), `act_dict_eq_sum`, `paths_agree`, `events_independent`, `dict_step_delta` / `ndl_step_delta` (one more learning step vs the modelled activation); multi-process path on the flat shared buffer: **`activation_mp_eq_single`** (every completion order, every initial buffer), **`mp_cells_written_once`**, `mp_dropped_tail_differs` (seeded change C12_b).",
     'C13': "`row_depends_only`, `rename_equivariant`, `cue_perm` / `event_perm`, `affine`, `lambda_homogeneous`, `beta2_zero(_seq)`, `alpha_zero(_cue)` on `rwLearn`, and the same laws on the MODELS: `dict_*` (via `dict_transport`) and `ndl_*`.",
-    'C14': "one event / one row (`wh_*_onehot_eq_rw`), whole sequences on names (`wh*Spec_onehot_eq_rw`), **`wh_{r2b,b2r,r2r}_onehot_eq_ndl`** (`whModel` vs `ndlCall`, both read through their labels), **`table_row_order_irrelevant_*`**, counter-examples for a repeated outcome and a non-injective dimension map.",
+    'C14': "one event / one row (`wh_*_onehot_eq_rw`), whole sequences on names (`wh*Spec_onehot_eq_rw`), **`wh_{r2b,b2r,r2r}_onehot_eq_ndl`** (`whModel` vs `ndlCall`, both read through their labels), **`table_row_order_irrelevant_*`**, **`wh_numpy_onehot_eq_ndl`** / **`dict_wh_onehot_eq_ndl`** (the other two methods, own models), counter-examples for a repeated outcome and a non-injective dimension map.",
     'C15': "interfaces (`conventions_agree`, `create_tokens_wf`, `filter_preserves_tokens`, `writer_reader_learner`, …), the assembled **`pipeline`** and **`pipeline_all`** (one filtered file, its counts, `dict_ndl` and `ndl.ndl`, both activation paths), `pipeline_order_irrelevant`, `pipeline_ndl_empty_raises`.",
     'C16': "`entries_count(_mixed)`, `call_appends_one_entry`, `chain_appends_from` (any length, any starting attrs), `chain_late_from`, **`ndl_chain_reports`** (entries are what the learner model did: `number_events` = the count it returns), `ndl_count_is_actual`, `split_join`, `pad_strip`.",
     'C17': "`fs_clean` (bracket = `with TemporaryDirectory`), `fs_clean_siblings` (spool and chunk directory as in the code), `fs_clean_contents` / **`inputs_unchanged`** (file contents), `generator_call_clean_any_spool`, `old_spool_leaks` (F7).",
